@@ -4,7 +4,7 @@ from harness.oracles import all as ALL
 
 ID = 'C14'
 UNITS = ['validators', 'adjust_intervals', 'io_wrappers', 'event_metrics', 'melody_metrics', 'melody_resample', 'transcription_scores', 'multipitch_metrics', 'seg_cluster_q', 'hier_measures', 'chord_evaluate', 'key_score', 'tempo_detection', 'alignment_scores', 'pattern_scores', 'beat_q', 'sep_framewise']
-TRANSLATORS = []
+TRANSLATORS = ['validfuncs']
 NOT_COVERED = ('exceptions raised inside NumPy/SciPy for values the models treat as ordinary (overflow, NaN inputs, object dtypes); metrics '
                'without a value model are covered at the entry-point level by the oracle only (sampling); the matcher model is total '
                '(bipartite_match_total: it never runs out of its fuel)')
@@ -31,7 +31,27 @@ def _still(cause):
     return run
 
 
-REFUTED = []
+def _zero_d_fails():
+    import numpy as np
+    from mir_eval import segment, hierarchy, melody
+    out = []
+    for fn, args in ((segment.validate_boundary, (np.array(3.0), np.array([[0.0, 1.0]]), False)),
+                     (hierarchy.validate_hier_intervals, ([np.array(3.0)],)),
+                     (melody.validate_voicing, (np.array(0.5), np.array(0.5)))):
+        try:
+            fn(*args)
+            out.append('returned')
+        except ValueError:
+            out.append('ValueError')
+        except Exception as e:  # noqa
+            out.append(type(e).__name__)
+    return out == ['TypeError', 'TypeError', 'IndexError']
+
+
+REFUTED = [
+    {'theorem': 'C14_boundary_0d_raises_TypeError_refuted', 'function': 'segment.validate_boundary / hierarchy.validate_hier_intervals / melody.validate_voicing',
+     'witness': 'a 0-dimensional array (np.array(3.0)) in place of the intervals / voicing array', 'still_fails': _zero_d_fails},
+]
 
 
 oracle_at = propgen.point_oracle(ID)      # the property's point checks at and around the mismatching input (harness/oracles/at_point.py)
